@@ -633,12 +633,30 @@ def _struct_framing(ctx, consts):
     from sa.props._lib_g import lin_equal
     start = ast.parse(f"{off} + {PL}", mode="eval").body
     end = ast.parse(f"{off} + {PL} + {ln}", mode="eval").body
-    ctx.check(sl.slice.upper is not None and lin_equal(sl.slice.upper, start, defs), "framing/slices-contiguous", q + " | <prefix slice>",
-              f"the length prefix is read from {buf}[{off}:{src(sl.slice.upper) if sl.slice.upper else ''}]; it must be exactly prefixLength bytes at the offset")
+    known = {L, off, PL, ln}
+
+    def resolved(e) -> bool:
+        """every variable of the expanded expression is one of the quantities the rule reasons about (else: a local the rule could not read through)"""
+        fm = lincmp(ast.Compare(left=expand(e, defs), ops=[ast.GtE()], comparators=[ast.Constant(value=0)]), consts)
+        return fm is not None and {k for k, _ in fm[0]} <= known
+    if sl.slice.upper is None or resolved(sl.slice.upper):
+        ctx.check(sl.slice.upper is not None and lin_equal(sl.slice.upper, start, defs), "framing/slices-contiguous", q + " | <prefix slice>",
+                  f"the length prefix is read from {buf}[{off}:{src(sl.slice.upper) if sl.slice.upper else ''}]; it must be exactly prefixLength bytes at the offset")
+    else:
+        ctx.note(f"framing/slices-contiguous: the upper bound `{src(sl.slice.upper)}` of the prefix slice is not an expression over the offset and prefixLength that the rule can "
+                 "read; clause left to reader/split-invariance (bounded)")
     pays = [st for st in statements(f) if isinstance(st, ast.Assign) and isinstance(st.value, ast.Subscript) and isinstance(st.value.slice, ast.Slice) and src(st.value.value) == buf
             and st.value.slice.lower is not None and st.value.slice.upper is not None and isinstance(st.targets[0], ast.Name)
             and any(isinstance(c, ast.Call) and call_name(c) == "self.stringReceived" and [src(a) for a in c.args] == [st.targets[0].id] for c in ast.walk(f))]
-    if len(pays) == 1:
+    if not pays:
+        # the slice handed to the callback directly:  self.stringReceived(buffer[a:b])
+        direct = [c.args[0] for c in ast.walk(f) if isinstance(c, ast.Call) and call_name(c) == "self.stringReceived" and len(c.args) == 1 and isinstance(c.args[0], ast.Subscript)
+                  and isinstance(c.args[0].slice, ast.Slice) and src(c.args[0].value) == buf and c.args[0].slice.lower is not None and c.args[0].slice.upper is not None]
+        if len(direct) == 1:
+            pays = [ast.Assign(targets=[ast.Name(id="<delivered>", ctx=ast.Store())], value=direct[0])]
+    if len(pays) == 1 and not (resolved(pays[0].value.slice.lower) and resolved(pays[0].value.slice.upper)):
+        ctx.note("framing/slices-contiguous: the bounds of the payload slice are not expressions the rule can read; clause left to reader/split-invariance (bounded)")
+    elif len(pays) == 1:
         lo, hi = pays[0].value.slice.lower, pays[0].value.slice.upper
         ctx.check(lin_equal(lo, start, defs) and lin_equal(hi, end, defs), "framing/slices-contiguous", q + " | <payload slice>",
                   f"the delivered string is {buf}[{src(expand(lo, defs))}:{src(expand(hi, defs))}]; it must start right after the prefix and be `{ln}` bytes long")
@@ -951,6 +969,7 @@ _SER_TAIL = "            for kv in k, v:\n                w(pack(\"!H\", len(kv)
 _SER_GEN_TAIL = "            for kv in k, v:\n                yield pack(\"!H\", len(kv))\n                yield kv\n        yield pack(\"!H\", 0)\n"
 
 MUTANTS = [
+    Mutant("walrus-bound-payload-start-one-byte-late", BASIC, "        while len(alldata) >= (currentOffset + prefixLength) and not self.paused:\n            messageStart = currentOffset + prefixLength\n", "        while len(alldata) >= (messageStart := currentOffset + prefixLength + 1) and not self.paused:\n", expect_rule="framing/slices-contiguous"),
     Mutant("flattening-generator-emits-payload-before-its-prefix", AMP, "            for kv in k, v:\n                w(pack(\"!H\", len(kv)))\n                w(kv)\n", "            L.extend(piece for kv in (k, v) for piece in (kv, pack(\"!H\", len(kv))))\n", expect_rule="box/wire-form"),
     Mutant("flattening-generator-filters-out-empty-values", AMP, "            for kv in k, v:\n                w(pack(\"!H\", len(kv)))\n                w(kv)\n", "            L.extend(piece for kv in (k, v) if kv for piece in (pack(\"!H\", len(kv)), kv))\n", expect_rule="box/wire-form"),
     # each row of an AmpList is converted into a container of its own
@@ -1025,6 +1044,7 @@ MUTANTS = [
 ]
 
 SILENT = [
+    Silent("payload-start-bound-by-a-walrus-in-the-loop-header", BASIC, "        while len(alldata) >= (currentOffset + prefixLength) and not self.paused:\n            messageStart = currentOffset + prefixLength\n", "        while len(alldata) >= (messageStart := currentOffset + prefixLength) and not self.paused:\n"),
     Silent("pair-emitted-by-one-flattening-generator-expression", AMP, "            for kv in k, v:\n                w(pack(\"!H\", len(kv)))\n                w(kv)\n", "            L.extend(piece for kv in (k, v) for piece in (pack(\"!H\", len(kv)), kv))\n"),
     Silent("pair-emitted-through-map-and-a-nested-comprehension", AMP, "            for kv in k, v:\n                w(pack(\"!H\", len(kv)))\n                w(kv)\n", "            L.extend([piece for prefix, kv in zip(map(len, (k, v)), (k, v)) for piece in (pack(\"!H\", prefix), kv)])\n"),
     Silent("amplist-rows-in-a-loop-with-a-box-per-row", AMP, "        return b\"\".join(\n            [\n                _objectsToStrings(objects, self.subargs, Box(), proto).serialize()\n                for objects in inObject\n            ]\n        )\n",
